@@ -187,8 +187,7 @@ def gen_trees(ctx):
     # comparisons / equality at the root of literal operands (not folded), operands also negated / one level deep
     d1c = [("bin", op, L(a), L(b)) for op in UNFOLDED_OPS for a in full for b in full]
     d1c += [("bin", op, ("neg", L(a)), L(b)) for op in UNFOLDED_OPS for a in full for b in CORE]
-    d1c += [("bin", op, ("bin", op1, L(a), L(b)), L(c)) for op in ("lt", "eq") for op1 in FOLDED_OPS
-            for a in CORE2 for b in CORE2 for c in CORE2]
+    d1c += [("bin", "lt", ("bin", op1, L(a), L(b)), L(c)) for op1 in FOLDED_OPS for a in CORE2 for b in CORE2 for c in CORE2]
     # depth 2 over the core leaves: both shapes, unary minus inside and outside
     core = CORE
     d2 = []
@@ -263,12 +262,22 @@ def observe(ctx, binary, trees):
         tok = nc.parse_typed(lines[0])
         return tok if tok else "V" + lines[0].strip()
 
-    def one(e):
+    quick = ctx.quick()
+
+    def wants_mixed(i, e):
+        # thorough tier: every tree with a comparison or an int literal beyond 32 bits, every fourth of the others
+        if quick or i % 4 == 0:
+            return True
+        s = sexp(core_tree(e)) if e[0] != "list" else " ".join(sexp(core_tree(x)) for x in e[1])
+        return any(("(%s " % o) in s for o in UNFOLDED_OPS) or any(t[0] == "I" and nc.ival(t) > nc.I32_MAX for t in leaves_of(e, []))
+
+    def one(ie):
+        i, e = ie
         f, u = programs_for(e)
-        mx = mixed_program(e)
+        mx = mixed_program(e) if wants_mixed(i, e) else None
         return run_one(f), run_one(u), (run_one(mx) if mx is not None else None)
 
-    return programs.pmap(one, trees)
+    return programs.pmap(one, list(enumerate(trees)))
 
 
 def run_fold_model(ctx, trees):
